@@ -162,8 +162,12 @@ def run(ctx):  # noqa: C901
     okp = any(t[0] == "@" and len(t[1]) == 3 and t[1][2] == ("dag", t[1][0]) and t[1][1] == ("call", "numpy.diag", (("call", "numpy.abs", (("n", "eigenvals"),), ()),), ()) for _, _, t in rets)
     ctx.ob("R-COV", rp, "PSD operator == Q diag(|eig|) Dagger(Q)", okp, "non-negative spectrum in an orthonormal frame" if okp else "construction changed")
     rs = m.func("random_states.random_states")
-    okn = any(isinstance(n, ast.AugAssign) and isinstance(n.op, ast.Div) and "np.linalg.norm(samples, axis=1)" in unparse(n.value) for n in walk_no_nested(rs.node))
-    ctx.ob("R-PRED", rs, "each sample normalised to a unit vector", okn, "divided by its own norm" if okn else "normalisation changed")
+    from .. import pmatch
+    fn_ = pmatch.find(rs.node, ["_S /= np.linalg.norm(_S, axis=1)[:, np.newaxis]", "_S = _S / np.linalg.norm(_S, axis=1)[:, np.newaxis]", "_S /= np.linalg.norm(_S, axis=1, keepdims=True)",
+                                "_S = _S / np.linalg.norm(_S, axis=1, keepdims=True)", "_S /= np.linalg.norm(_S, axis=1)[:, None]", "_S = _S / np.linalg.norm(_S, axis=1)[:, None]"])
+    wrong_axis = pmatch.find(rs.node, ["_S /= np.linalg.norm(_S, axis=0)[_I]", "_S /= np.linalg.norm(_S)", "_S = _S / np.linalg.norm(_S)", "_S /= np.linalg.norm(_S, axis=0)"])
+    okn = True if fn_ else False if (wrong_axis or not pmatch.has_call(m, rs, "numpy.linalg.norm")) else None
+    ctx.ob("R-PRED", rs, "each sample normalised to a unit vector", okn, "every row divided by its own norm" if okn else "rows are not divided by their own norms (axis=1, broadcast over columns)" if okn is False else "normalisation not recognised", required=okn is not None)
     rc = m.func("random_circulant_gram_matrix.random_circulant_gram_matrix")
     rets, Nc = return_terms(m, rc, inline=False)
     okc = any(t[0] == "real" and t[1][0] == "@" and len(t[1][1]) == 3 and t[1][1][0] == ("dag", t[1][1][2]) for _, _, t in rets) or \
@@ -194,7 +198,8 @@ def run(ctx):  # noqa: C901
     okpr = len(pr) == 2 and all(Nm(n.value) == ("real", ("call", "numpy.trace", (("n", "result"),), ())) for n in pr)
     ctx.ob("R-PRED", ms, "probability == Re Tr(K rho K^+)", okpr, "trace of the unnormalised post-state" if okpr else "probability formula changed")
     ps = [n for n in walk_no_nested(ms.node) if isinstance(n, ast.Assign) and isinstance(n.targets[0], ast.Name) and n.targets[0].id == "post_state" and isinstance(n.value, ast.BinOp)]
-    okps = len(ps) == 2 and all(unparse(n.value).replace(" ", "") == "result/prob" for n in ps)
+    prn = {n.targets[0].id for n in pr}
+    okps = len(ps) == 2 and all(isinstance(n.value.op, ast.Div) and isinstance(n.value.right, ast.Name) and n.value.right.id in prn and Nm(n.value.left) == ("n", "result") for n in ps)
     ctx.ob("R-PRED", ms, "post-measurement state normalised by its probability", okps, "result / prob" if okps else "normalisation changed")
     r_effect_free(ctx, ms, ["state", "measurement"])
     for nm in ("pretty_good_measurement", "pretty_bad_measurement"):
@@ -204,8 +209,14 @@ def run(ctx):  # noqa: C901
         okl = any(t[0] == "cmp" and t[1] == "!=" and repr(t).count("builtins.len") == 2 for t in gs)
         oks = any(t[0] == "not" and "numpy.isclose" in repr(t) and "builtins.sum" in repr(t) and "('c', 1)" in repr(t) for t in gs)
         ctx.ob("R-GUARD", f, "len(states) == len(probs) and sum(probs) ~ 1", okl and oks, "both raising guards" if okl and oks else "a prior-validation guard is missing")
-        okd = any(isinstance(n, ast.Assign) and unparse(n).replace(" ", "") == "probs=n*[1/n]" for n in walk_no_nested(f.node))
-        ctx.ob("R-THREAD", f, "default prior uniform", okd, "n * [1/n]")
+        fdp = pmatch.find(f.node, ["probs = _N * [1 / _N]", "probs = [1 / _N] * _N", "probs = np.ones(_N) / _N", "probs = np.full(_N, 1 / _N)"])
+        okd = None
+        if fdp:
+            tn_ = Normalizer(m, f, inline=True)(ast.parse(ast.unparse(fdp[0][0].value), mode="eval").body)
+            okd = "('call', 'builtins.len', (('n', 'states'),), ())" in repr(tn_)
+        elif not any(isinstance(n, ast.Assign) and isinstance(n.targets[0], ast.Name) and n.targets[0].id == "probs" for n in walk_no_nested(f.node)):
+            okd = False
+        ctx.ob("R-THREAD", f, "default prior uniform", okd, "n * [1/n] with n = len(states)" if okd else "default prior is not uniform over the states" if okd is False else "default prior not recognised", required=okd is not None)
         r_effect_free(ctx, f, ["states", "probs"])
     pg = m.func("pretty_good_measurement.pretty_good_measurement")
     Ng = Normalizer(m, pg, inline=False)
@@ -222,7 +233,14 @@ def run(ctx):  # noqa: C901
                 and t[3][0][1] == ("call", "builtins.range", (("n", "n"),), ())
     ctx.ob("R-ENUM", pg, "G_i == S (p_i rho_i) S with the same i, all i", oke, "sandwich with matching indices" if oke else "element formula or index pairing changed")
     pv = [n for n in walk_no_nested(pg.node) if isinstance(n, ast.Assign) and isinstance(n.targets[0], ast.Name) and n.targets[0].id == "p_var"]
-    okv = bool(pv) and "probs[i] * states[i] for i in range(n)" in unparse(pv[0].value)
+    okv = False
+    if pv:
+        tv_ = Ng(pv[0].value)
+        cm_ = [s_ for s_ in subterms(tv_) if isinstance(s_, tuple) and s_ and s_[0] == "comp"]
+        if tv_[0] == "call" and tv_[1] in ("builtins.sum", "numpy.sum") and cm_:
+            i_ = cm_[0][3][0][0]
+            e_ = cm_[0][2][0]
+            okv = e_[0] == "*" and ("sub", ("n", "probs"), i_) in e_[1] and ("sub", ("n", "states"), i_) in e_[1] and len(e_[1]) == 2 and cm_[0][3][0][1] == ("call", "builtins.range", (("n", "n"),), ())
     ctx.ob("R-ENUM", pg, "average state == sum_i p_i rho_i over all i", okv, "same-index pairing" if okv else "average state changed")
     pb = m.func("pretty_bad_measurement.pretty_bad_measurement")
     rets, _ = return_terms(m, pb, inline=False)
